@@ -276,3 +276,21 @@ Example ex_align :
   (exists t', align_to ex_other ADetect ex_t = ROk t' /\ oids t' = [30;10;20]%Z /\ sids t' = [1;2;3;4]%Z) /\
   align_to ex_other ASample ex_t = RErr E_DISJOINT /\ align_to ex_other AUnknown ex_t = RErr E_UNKNOWN.
 Proof. vm_compute. repeat split. eexists. repeat split; reflexivity. Qed.
+
+(* ---- translator tie: Gen/UpdateIdsGen.v is regenerated from Table.update_ids of biom/table.py
+   by tools/py2v_eq on every run (over the vocabulary of Gen/UpdPrelude.v).  The generated
+   function returns (the table returned, the receiver afterwards) and equals the hand-written
+   update_ids above for ALL inputs and for EVERY length function len_of of the ids: in particular
+   the fixed-width text array the source allocates is never too narrow for an id it stores
+   (the generated model answers E_UNMODELLED where numpy would truncate; the right-hand side
+   never does).  In place the receiver is the result; otherwise it is untouched. *)
+From BiomV Require Import Gen.UpdPrelude Gen.UpdateIdsGen Proofs.GenBridgeUpdateIdsProofs.
+
+Theorem update_ids_is_source : forall (len_of : Z -> nat) t m a strict inplace,
+  gen_update_ids len_of t m a strict inplace =
+  match update_ids m a strict inplace t with
+  | ROk r => ROk (r, if inplace then r else t)
+  | RErr c => RErr c
+  end.
+Proof. exact update_ids_bridge. Qed.
+Print Assumptions update_ids_is_source.
